@@ -107,31 +107,31 @@ package mq
 // ---------------------------------------------------------------- packet decoders
 
 //@ func (*Connect).UnmarshalBinary
-//@   assigns $heap
+//@   assigns *p, capelems(p.UserProperties), $elems, $alloc
 //@   ensures p.fixed == old(p.fixed)                                    #C16
 //@   ensures $elems - old($elems) <= len(data)                          #C05
 //@ func (*ConnAck).UnmarshalBinary
-//@   assigns $heap
+//@   assigns *p, capelems(p.UserProperties), $elems, $alloc
 //@   ensures p.fixed == old(p.fixed)                                    #C16
 //@   ensures $elems - old($elems) <= len(data)                          #C05
 //@ func (*Publish).UnmarshalBinary
-//@   assigns $heap
+//@   assigns *p, capelems(p.UserProperties), capelems(p.subscriptionIDs), $elems, $alloc
 //@   ensures p.fixed == old(p.fixed)                                    #C16
 //@   ensures $elems - old($elems) <= len(data)                          #C05
 //@ func (*PubAck).UnmarshalBinary
-//@   assigns $heap
+//@   assigns *p, capelems(p.UserProperties), $elems, $alloc
 //@   ensures p.fixed == old(p.fixed)                                    #C16
 //@   ensures $elems - old($elems) <= len(data)                          #C05
 //@ func (*PubRec).UnmarshalBinary
-//@   assigns $heap
+//@   assigns *p, capelems(p.UserProperties), $elems, $alloc
 //@   ensures p.fixed == old(p.fixed)                                    #C16
 //@   ensures $elems - old($elems) <= len(data)                          #C05
 //@ func (*PubRel).UnmarshalBinary
-//@   assigns $heap
+//@   assigns *p, capelems(p.UserProperties), $elems, $alloc
 //@   ensures p.fixed == old(p.fixed)                                    #C16
 //@   ensures $elems - old($elems) <= len(data)                          #C05
 //@ func (*PubComp).UnmarshalBinary
-//@   assigns $heap
+//@   assigns *p, capelems(p.UserProperties), $elems, $alloc
 //@   ensures p.fixed == old(p.fixed)                                    #C16
 //@   ensures $elems - old($elems) <= len(data)                          #C05
 //@ func (*Subscribe).UnmarshalBinary
@@ -139,7 +139,7 @@ package mq
 //@   -- into spare capacity of an existing filter list cannot be separated from the receiver's own
 //@   -- fields in the flat memory model
 //@   requires cap(p.filters) == 0                                       #C16
-//@   assigns $heap
+//@   assigns *p, capelems(p.UserProperties), capelems(p.filters), $elems, $alloc
 //@   ensures p.fixed == old(p.fixed)                                    #C16
 //@   ensures $elems - old($elems) <= len(data)                          #C05
 //@   loop 0:
@@ -149,7 +149,7 @@ package mq
 //@     invariant $elems - old($elems) <= len(data)                      #C05
 //@     decreases b.err == nil ? 1 + len(data) - b.i : 0
 //@ func (*SubAck).UnmarshalBinary
-//@   assigns $heap
+//@   assigns *p, capelems(p.UserProperties), $elems, $alloc
 //@   ensures p.fixed == old(p.fixed)                                    #C16
 //@   ensures $elems - old($elems) <= len(data)                          #C05
 //@   ensures len(p.reasonCodes) <= len(data)                            #C05
@@ -162,7 +162,7 @@ package mq
 //@   -- into spare capacity of an existing filter list cannot be separated from the receiver's own
 //@   -- fields in the flat memory model
 //@   requires cap(p.filters) == 0                                       #C16
-//@   assigns $heap
+//@   assigns *p, capelems(p.UserProperties), capelems(p.filters), $elems, $alloc
 //@   ensures p.fixed == old(p.fixed)                                    #C16
 //@   ensures $elems - old($elems) <= len(data)                          #C05
 //@   loop 0:
@@ -172,7 +172,7 @@ package mq
 //@     invariant $elems - old($elems) <= len(data)                      #C05
 //@     decreases b.err == nil ? 1 + len(data) - b.i : 0
 //@ func (*UnsubAck).UnmarshalBinary
-//@   assigns $heap
+//@   assigns *p, capelems(p.UserProperties), $elems, $alloc
 //@   ensures p.fixed == old(p.fixed)                                    #C16
 //@   ensures $elems - old($elems) <= len(data)                          #C05
 //@   ensures len(p.reasonCodes) <= len(data)                            #C05
@@ -181,23 +181,23 @@ package mq
 //@     invariant $elems - old($elems) <= len(data) && len(p.reasonCodes) <= len(data)   #C05
 //@     decreases len(p.reasonCodes) - rangeindex
 //@ func (*PingReq).UnmarshalBinary
-//@   assigns $heap
+//@   assigns *p, $elems, $alloc
 //@   ensures p.fixed == old(p.fixed)                                    #C16
 //@   ensures $elems - old($elems) <= len(data)                          #C05
 //@ func (*PingResp).UnmarshalBinary
-//@   assigns $heap
+//@   assigns *p, $elems, $alloc
 //@   ensures p.fixed == old(p.fixed)                                    #C16
 //@   ensures $elems - old($elems) <= len(data)                          #C05
 //@ func (*Disconnect).UnmarshalBinary
-//@   assigns $heap
+//@   assigns *p, capelems(p.UserProperties), $elems, $alloc
 //@   ensures p.fixed == old(p.fixed)                                    #C16
 //@   ensures $elems - old($elems) <= len(data)                          #C05
 //@ func (*Auth).UnmarshalBinary
-//@   assigns $heap
+//@   assigns *p, capelems(p.UserProperties), $elems, $alloc
 //@   ensures p.fixed == old(p.fixed)                                    #C16
 //@   ensures $elems - old($elems) <= len(data)                          #C05
 //@ func (*Undefined).UnmarshalBinary
-//@   assigns $heap
+//@   assigns *p, $elems, $alloc
 //@   ensures $elems - old($elems) <= len(data)                          #C05
 
 // ---------------------------------------------------------------- rendering (C19)
